@@ -20,7 +20,18 @@ PLAN2 = {
  'W2G-m1': ('G', ['C17','C05']), 'W2G-m2': ('G', ['C17']),
  'W2H-m1': ('H', ['C01','C04']), 'W2H-m2': ('H', ['C01','C04']),
 }
+PLAN3 = {
+ 'W3A-m1': ('A', ['C07','C10']), 'W3A-m2': ('A', ['C07','C17']),
+ 'W3B-m1': ('B', ['C10']), 'W3B-m2': ('B', ['C10','C09']),
+ 'W3C-m1': ('C', ['C19','C03']), 'W3C-m2': ('C', ['C19']),
+ 'W3D-m1': ('D', ['C06','C12']), 'W3D-m2': ('D', ['C06']),
+ 'W3E-m1': ('E', ['C02','C01']), 'W3E-m2': ('E', ['C02']),
+ 'W3F-m1': ('F', ['C08']), 'W3F-m2': ('F', ['C08']),
+}
 SRC = {}
+for k, (d, checks) in PLAN3.items():
+    PLAN[k] = checks
+    SRC[k] = f'/tmp/mut3-{d}/out/{k.split("-")[1]}'
 for k, (d, checks) in PLAN2.items():
     PLAN[k] = checks
     SRC[k] = f'/tmp/mut2-{d}/out/{k.split("-")[1]}'
